@@ -283,10 +283,10 @@ func init() {
 	}
 }
 
-// Sizes of dynamically typed values handed to binary.Write.  Real type tags get
-// ground facts (BinSizeT: width/8 for fixed-size integer, float and bool types,
-// 0 = not a fixed-size scalar); the elements of a slice held by a message field
-// carry a synthetic tag that encodes their class and width.
+// Sizes of dynamically typed values handed to binary.Write.  Real type tags
+// encode the size (width/8 for fixed-size integer, float and bool types, 0 = not
+// a fixed-size scalar) in their own bits; the elements of a slice held by a
+// message field carry a synthetic tag that encodes their class and width.
 const synthTagBase = 0x40000000
 
 func synthElemTag(ecls, ewid string) string {
@@ -294,39 +294,7 @@ func synthElemTag(ecls, ewid string) string {
 }
 
 func (vc *VC) binSizeTerm(tag string) string {
-	if !vc.declared["BinSizeT"] {
-		vc.declareFun("BinSizeT", []string{sBV64}, sBV64)
-		seen := map[int]bool{}
-		emit := func(t types.Type) {
-			id := vc.w.tags.tag(t)
-			if seen[id] {
-				return
-			}
-			seen[id] = true
-			sz := 0
-			if b, ok := t.Underlying().(*types.Basic); ok && b.Info()&(types.IsInteger|types.IsFloat|types.IsBoolean) != 0 {
-				switch b.Kind() {
-				case types.Bool, types.Int8, types.Uint8:
-					sz = 1
-				case types.Int16, types.Uint16:
-					sz = 2
-				case types.Int32, types.Uint32, types.Float32:
-					sz = 4
-				case types.Int64, types.Uint64, types.Float64:
-					sz = 8
-				}
-			}
-			vc.prelude = append(vc.prelude, fmt.Sprintf("(assert (= (BinSizeT %s) %s))", bvLit(64, uint64(id)), bvLit(64, uint64(sz))))
-		}
-		for _, k := range vc.w.profileMsgNums() {
-			for _, f := range vc.w.profile().Msgs[k].Fields {
-				emit(f.T)
-			}
-		}
-		for _, bk := range []types.BasicKind{types.Bool, types.Int8, types.Uint8, types.Int16, types.Uint16, types.Int32, types.Uint32, types.Int64, types.Uint64, types.Float32, types.Float64} {
-			emit(types.Typ[bk])
-		}
-	}
+	// real type tags carry the size in bits 20..23 (TypeTags.tag); synthetic element tags their width in bits
 	synth := app("bvuge", tag, bvLit(64, synthTagBase))
-	return ite(synth, app("bvlshr", app("bvand", tag, bvLit(64, 0xFFFF)), bvLit(64, 3)), app("BinSizeT", tag))
+	return ite(synth, app("bvlshr", app("bvand", tag, bvLit(64, 0xFFFF)), bvLit(64, 3)), app("bvand", app("bvlshr", tag, bvLit(64, 20)), bvLit(64, 0xF)))
 }
